@@ -191,6 +191,7 @@ class OracleStats:
         self.samples = []
         self.budget_skipped = 0
         self.planned = 0
+        self.shrink_evals = 0
 
     def record(self, case, info):
         self.evaluated += 1
@@ -222,6 +223,7 @@ class OracleStats:
             "max_residual": self.max_residual,
             "samples": self.samples,
             "budget_skipped": self.budget_skipped,
+            "shrink_evals": self.shrink_evals,
             "hashes": sorted(self.nontrivial_hashes),
         }
 
@@ -288,9 +290,16 @@ def run_oracle(prop_id, oracle: Oracle, n_examples, seed_int, active_known, dead
                 and time.time() - t_first_fail[0] > oracle.shrink_seconds
             ):
                 return  # shrink budget used up: let Hypothesis wind down
-            stats.generated += 1
+            shrinking = t_first_fail[0] is not None
             res = evaluate(oracle, case, frozenset(local_known))
             kind = res[0]
+            if shrinking:
+                # shrink-phase executions are biased towards tiny inputs: not counted
+                stats.shrink_evals += 1
+                if kind != "fail":
+                    return
+            else:
+                stats.generated += 1
             if kind == "ok":
                 if res[1].pop("_known_model", False):
                     stats.known_model_checked += 1
@@ -482,6 +491,7 @@ def merge_and_report(prop_id, module, tier, seed, parts, wall_s, nshards):
                     "max_residual": 0.0,
                     "samples": [],
                     "budget_skipped": 0,
+                    "shrink_evals": 0,
                     "hashes": [],
                 },
             )
@@ -492,6 +502,7 @@ def merge_and_report(prop_id, module, tier, seed, parts, wall_s, nshards):
                 "excluded_known",
                 "known_model_checked",
                 "budget_skipped",
+                "shrink_evals",
             ):
                 d[k] += o[k]
             d["skipped"].update(o["skipped"])
